@@ -290,7 +290,7 @@ package fox
 //@   requires fox != nil && published[&fox.tree] != nil
 //@   assume-at call (*cTx).resetNil#1 : pool-discipline: c != nil && c.params != nil && c.tsrParams != nil && c.skipNds != nil
 //@   modifies heap, unlockedLoads[&fox.tree], released, poolOut
-//@   ensures @C16,C06 pool-balance: poolOut[&old(published[&fox.tree]).ctx] == old(poolOut[&published[&fox.tree].ctx])
+//@   ensures @C16,C06,C05 pool-balance: poolOut[&old(published[&fox.tree]).ctx] == old(poolOut[&published[&fox.tree].ctx])
 //@   ensures nolock: held[&fox.mu] == old(held[&fox.mu]) && lockOps[&fox.mu] == old(lockOps[&fox.mu]) && pubCount[&fox.tree] == old(pubCount[&fox.tree])
 //@   ensures one-load: unlockedLoads[&fox.tree] == old(unlockedLoads[&fox.tree]) + (held[&fox.mu] ? 0 : 1)
 //@   ensures found: result != nil ==> result == old(selNode(published[&fox.tree], method, splitHost(pattern), splitPath(pattern)).route) && !old(selTsr(published[&fox.tree], method, splitHost(pattern), splitPath(pattern)))
@@ -306,7 +306,7 @@ package fox
 //@   requires fox != nil && published[&fox.tree] != nil
 //@   assume-at call (*cTx).resetNil#1 : pool-discipline: c != nil && c.params != nil && c.tsrParams != nil && c.skipNds != nil
 //@   modifies heap, unlockedLoads[&fox.tree], released, poolOut
-//@   ensures @C16,C06 pool-balance: poolOut[&old(published[&fox.tree]).ctx] == old(poolOut[&published[&fox.tree].ctx])
+//@   ensures @C16,C06,C05 pool-balance: poolOut[&old(published[&fox.tree]).ctx] == old(poolOut[&published[&fox.tree].ctx])
 //@   ensures nolock: held[&fox.mu] == old(held[&fox.mu]) && lockOps[&fox.mu] == old(lockOps[&fox.mu]) && pubCount[&fox.tree] == old(pubCount[&fox.tree])
 //@   ensures one-load: unlockedLoads[&fox.tree] == old(unlockedLoads[&fox.tree]) + (held[&fox.mu] ? 0 : 1)
 
@@ -315,7 +315,7 @@ package fox
 //@   requires fox != nil && published[&fox.tree] != nil && r != nil && r.URL != nil
 //@   assume-at call (*cTx).resetWithWriter#1 : pool-discipline: c != nil && c.params != nil && c.tsrParams != nil && c.skipNds != nil
 //@   modifies heap, unlockedLoads[&fox.tree], released, poolOut
-//@   ensures @C16,C12 pool-balance: poolOut[&old(published[&fox.tree]).ctx] == old(poolOut[&published[&fox.tree].ctx]) + (route != nil ? 1 : 0)
+//@   ensures @C16,C12,C05 pool-balance: poolOut[&old(published[&fox.tree]).ctx] == old(poolOut[&published[&fox.tree].ctx]) + (route != nil ? 1 : 0)
 //@   ensures nolock: held[&fox.mu] == old(held[&fox.mu]) && lockOps[&fox.mu] == old(lockOps[&fox.mu]) && pubCount[&fox.tree] == old(pubCount[&fox.tree])
 //@   ensures one-load: unlockedLoads[&fox.tree] == old(unlockedLoads[&fox.tree]) + (held[&fox.mu] ? 0 : 1)
 //@   ensures selected: old(sn(fox, r)) != nil ==> route == old(sn(fox, r).route)
